@@ -426,8 +426,15 @@ class BackwardScheduler(IScheduler):
         if _task.id in calculated:
             return
 
+        # successors of parent tasks are successors of this task too
+        for parent in _task.all_parents:
+            for succ in parent.successors:
+                self.__backward_pass(succ, self.__end, resource_usage, calculated)
+                if succ.start is not None:
+                    min_date = min(min_date, succ.start)
+
         for pred in _task.successors:
-            self.__backward_pass(pred, min_date, resource_usage, calculated)
+            self.__backward_pass(pred, self.__end, resource_usage, calculated)
 
         min_successor_starts = min([t.start for t in _task.successors if t.start is not None] + [min_date])
 
